@@ -302,11 +302,19 @@ macro_rules! arch_driver {
             }
         }
 
-        fn comps_out(c: <$A as Archetype>::Components) -> DestroyOut {
+        fn comps_out(mut c: <$A as Archetype>::Components) -> DestroyOut {
+            // the named-components struct: get / get_mut / public fields / into_tuple must agree
+            let via_get: Vec<u64> = vec![$( Components::get::<$C>(&c).get() ),+];
+            let via_get_mut: Vec<u64> = vec![$( Components::get_mut::<$C>(&mut c).get() ),+];
+            let via_field: Vec<u64> = vec![$( c.$fld.get() ),+];
             // the returned components are dropped here, in harness code: not an injection point
             $crate::comps::suspend();
-            let o = obs_tuple(None, &c.into_tuple());
+            let mut o = obs_tuple(None, &c.into_tuple());
             $crate::comps::resume();
+            if via_get != o.vals || via_get_mut != o.vals || via_field != o.vals {
+                // make the disagreement visible
+                o.vals = vec![$crate::comps::GARBAGE; o.vals.len()];
+            }
             DestroyOut { comps: Some((o.vals, o.trk)) }
         }
 
@@ -928,6 +936,11 @@ macro_rules! arch_driver {
                 hash_agrees = hash2(&t) == hash2(&a);
                 let t2: Entity<$A> = t;
                 eq_reflexive = t == t2 && EntityAny::from(t) == a && t.clone() == t;
+                // the generated dispatch enums built FROM a typed handle name this archetype
+                let sel_ok = SelectArchetype::from(t).archetype_id() == <$A as Archetype>::ARCHETYPE_ID
+                    && matches!(SelectEntity::from(t), SelectEntity::$A(e) if e == t)
+                    && matches!(SelectEntity::from(&t), SelectEntity::$A(e) if e == t);
+                ref_views_ok &= sel_ok;
             }
             TypedConv {
                 try_from: tf.ok().map(|t| t.into_any().raw()),
@@ -957,6 +970,9 @@ macro_rules! arch_driver {
                 }
                 hash_agrees = hash2(&t) == hash2(&d);
                 ref_views_ok &= EntityDirectAny::from(t) == d && t.clone() == t;
+                ref_views_ok &= SelectArchetype::from(t).archetype_id() == <$A as Archetype>::ARCHETYPE_ID
+                    && matches!(SelectEntityDirect::from(t), SelectEntityDirect::$A(e) if e == t)
+                    && matches!(SelectEntityDirect::from(&t), SelectEntityDirect::$A(e) if e == t);
             }
             TypedConvD { try_from: tf.ok().map(|t| t.into_any()), from_any, typed_arch_id, ref_views_ok, hash_agrees }
         }
